@@ -36,6 +36,8 @@ use serde_json::{json, Value};
 use vcore::{bfs, catch, Ctx, Local};
 use vref::cache::{self as rc, Bounds, Config, Model, Observation, Stored, Verdict};
 
+mod seam;
+
 fn n(s: &str) -> Name {
     Name::from_str(s).unwrap()
 }
@@ -107,6 +109,12 @@ fn shapes() -> Vec<(&'static str, Shape)> {
         ("q5+ns1+glue7", Shape::Pos(vec![(An, Q, 5), (Au, Ns, 1), (Ad, Glue, 7)])),
         ("mx2", Shape::Pos(vec![(An, Mx, 2)])),
         ("mx1+addq5", Shape::Pos(vec![(An, Mx, 1), (Ad, Q, 5)])),
+        // the smallest TTL of the query type (or CNAME) sits in the authority / additional section,
+        // or is the third record
+        ("q5+auq1", Shape::Pos(vec![(An, Q, 5), (Au, Q, 1)])),
+        ("q5+adcname1", Shape::Pos(vec![(An, Q, 5), (Ad, Cname, 1)])),
+        ("q5+q2+q1", Shape::Pos(vec![(An, Q, 5), (An, Q, 2), (An, Q, 1)])),
+        ("q2+auq5+adq1", Shape::Pos(vec![(An, Q, 2), (Au, Q, 5), (Ad, Q, 1)])),
         ("neg-none", Shape::Neg { nttl: None, soa: None, auth: vec![], ns: vec![], nx: false }),
         ("neg0", Shape::Neg { nttl: Some(0), soa: Some(0), auth: vec![], ns: vec![], nx: true }),
         ("neg1-full", Shape::Neg { nttl: Some(1), soa: Some(5), auth: vec![2], ns: vec![(7, vec![1])], nx: false }),
@@ -132,6 +140,8 @@ fn far_shapes() -> Vec<(&'static str, Shape)> {
         ("far-q86399", Shape::Pos(vec![(An, Q, 86_399)])),
         ("far-q86400", Shape::Pos(vec![(An, Q, 86_400)])),
         ("far-q86401", Shape::Pos(vec![(An, Q, 86_401)])),
+        ("far-q2^31-1", Shape::Pos(vec![(An, Q, 0x7fff_ffff)])),
+        ("far-q2^31", Shape::Pos(vec![(An, Q, 0x8000_0000), (Au, Q, 0x8000_0001)])),
         ("far-qmax+cname100000", Shape::Pos(vec![(An, Cname, 100_000), (An, Q, u32::MAX)])),
         ("far-neg86401", Shape::Neg { nttl: Some(86_401), soa: Some(86_401), auth: vec![], ns: vec![], nx: true }),
         ("far-negmax", Shape::Neg { nttl: Some(u32::MAX), soa: Some(u32::MAX), auth: vec![u32::MAX], ns: vec![], nx: false }),
@@ -945,6 +955,12 @@ fn main() {
     }
 
     if let Some((_key, case)) = ctx.replay_case() {
+        if case["seam"].as_bool() == Some(true) {
+            ctx.with_local(|l| {
+                seam::run(true, case["world"].as_str(), l);
+            });
+            ctx.finish(false);
+        }
         let cfg = CfgSpec::from_json(&case["cfg"]);
         let hist: Vec<Op> = case["history"].as_array().map(|a| a.iter().map(|o| op_from_json(o, &env)).collect()).unwrap_or_default();
         let probe_queries: Vec<usize> =
@@ -962,7 +978,15 @@ fn main() {
         };
         ctx.with_local(|l| match catch(|| execute(&env, &inst, &hist, 0, true, l)) {
             Ok(_) => {}
-            Err(p) => l.violation(&format!("panic:{}", vcore::short_loc(&p.loc)), &p.msg, || case.clone()),
+            Err(p) => {
+                let key = if inst.model_cfg.min_above_default_max() && (p.msg.contains("min > max") || p.msg.contains("min <= max")) {
+                    let negative = hist.iter().any(|o| matches!(o, Op::Insert(q, r) if matches!(env.stored[*q as usize][*r as usize], Stored::Negative { .. })));
+                    format!("insert-panics:min-above-default-max:{}", if negative { "negative" } else { "positive" })
+                } else {
+                    format!("panic:{}", vcore::short_loc(&p.loc))
+                };
+                l.violation(&key, &p.msg, || case.clone())
+            }
         });
         ctx.finish(false);
     }
@@ -974,7 +998,10 @@ fn main() {
          None/0/1/3/5 with SOA, authorities, NS+glue; 9 transient/other errors), dt in {{0,400,600,1000,2000,4000}} ms, x {} TTL \
          configurations (global / per-type positive and negative min/max from {{unset,0,1,2,3}}, min<=max). Grids: single (every \
          configuration x every query, full alphabets, to the fixpoint of canonical states = histories of any length), pair and triple \
-         (sub-alphabets, fixpoint or depth bound, see coverage.grids), far (E-ENUM around the default maximum of one day). \
+         (sub-alphabets, fixpoint or depth bound, see coverage.grids), far (E-ENUM around the default maximum of one day, TTLs 2^31 / u32::MAX, \
+         configured minima above one day). Seam family (E-ENUM, real time): CachingClient::lookup over a scripted upstream for every world of \
+         direct / one-response / two-hop / three-hop alias chains, negative answers with SOA(ttl, minimum), chains to negative and failing \
+         targets, upstream failures, TTLs from {{0,1,2,(3,)9}}, preserve_intermediates on/off, re-looked-up at 0, 1.15, 2.15, 3.15 s. \
          After every transition a fixed look-ahead probe sequence (12 offsets x probed queries incl. one foreign query) is executed and \
          judged. Oracle = vref::cache (acceptance model from the statement). Non-trivial = distinct (configuration, query, result, \
          hit/miss, age<L / =L / >L / L undefined) among judged gets on entries the model holds.",
@@ -985,6 +1012,7 @@ fn main() {
     ctx.assume("L is computed from the per-type clamped record TTLs (DESIGN reading); the reading with unclamped TTLs is only logged (obs:hit-beyond-L-of-unclamped-record-ttls)");
     ctx.assume("canonical-key argument (per query: last cacheable result, age capped just above its lifetime), tested by the digest differential and the matching-free cross-run");
     ctx.assume("all `now` values lie 30 days ahead of the real clock, so moka's own real-time expiry never fires; moka can only forget earlier, which the oracle always allows");
+    ctx.assume("seam family: CachingClient reads the real clock; only lower bounds on an entry's age are used (age >= start of the lookup - end of the lookup that last fetched it), so stalls cannot produce false alarms; upstream TTLs are the ground truth");
     ctx.assume("clear/clear_query semantics are not part of the statement: a hit on a cleared entry would be logged (obs:hit-after-clear), not judged");
 
     // harness self-check: the serde-built TtlConfig means what the model configuration says
@@ -1008,6 +1036,13 @@ fn main() {
     ctx.set("result_shapes", json!(shapes().len()));
 
     let quick = ctx.quick();
+    // the seam family (CachingClient over a scripted upstream, real time) sleeps most of its ~3.3 s:
+    // it runs beside the grids; only lower bounds on ages are used, so contention cannot hurt
+    let seam_thread = std::thread::spawn(move || {
+        let mut l = Local::default();
+        let st = vcore::catch(|| seam::run(!quick, None, &mut l));
+        (l, st)
+    });
     let all_cfgs: Vec<usize> = (0..cfgs.len()).collect();
     let near_shapes: Vec<&'static str> = shapes().iter().map(|s| s.0).collect();
     let diff = Differential::new();
@@ -1048,7 +1083,7 @@ fn main() {
 
     // G2: two queries (same name / different name), sub-alphabets, to the fixpoint
     let pair_cfgs: Vec<usize> = if quick {
-        vec![0, 2, 6, 9, 15, 23, 27, 30, 35]
+        vec![0, 9, 23, 27, 35]
     } else {
         // every third global configuration, every per-type / combined one
         all_cfgs.iter().copied().filter(|i| *i >= 24 || i % 3 == 0).collect()
@@ -1124,12 +1159,22 @@ fn main() {
 
     // far grid (E-ENUM): the documented default maximum of one day and u32 limits
     {
-        let far: Vec<&'static str> = far_shapes().iter().map(|s| s.0).collect();
+        let mut far: Vec<&'static str> = far_shapes().iter().map(|s| s.0).collect();
+        far.extend(["q2", "cname1+q5", "q5+auq1", "neg1-full", "neg-none"]);
+        let (a_name, a_code) = type_code_of("A");
         let far_cfgs = vec![
             CfgSpec { default: Bounds::default(), by_type: vec![] },
             CfgSpec { default: Bounds { pos_max: Some(200_000), neg_max: Some(200_000), ..Default::default() }, by_type: vec![] },
+            // a configured minimum above the built-in one-day default maximum (no maximum configured)
+            CfgSpec { default: pos(Some(90_000), None), by_type: vec![] },
+            CfgSpec { default: neg(Some(90_000), None), by_type: vec![] },
+            CfgSpec { default: Bounds::default(), by_type: vec![(a_name, a_code, Bounds { pos_min: Some(100_000), neg_min: Some(100_000), ..Default::default() })] },
+            CfgSpec { default: Bounds { pos_min: Some(90_000), pos_max: Some(200_000), neg_min: Some(90_000), neg_max: Some(200_000) }, by_type: vec![] },
         ];
-        let advances: [u32; 9] = [0, 86_398_600, 86_399_000, 86_400_000, 86_400_400, 86_401_000, 199_999_600, 200_000_000, 200_000_400];
+        let advances: [u32; 13] = [
+            0, 86_398_600, 86_399_000, 86_400_000, 86_400_400, 86_401_000, 89_999_600, 90_000_000, 90_000_400, 100_000_400, 199_999_600, 200_000_000,
+            200_000_400,
+        ];
         let mut cases = vec![];
         for ci in 0..far_cfgs.len() {
             for q in 0..3u8 {
@@ -1160,7 +1205,16 @@ fn main() {
             let (ci, q, r, a) = cases[i as usize];
             let hist = vec![Op::Insert(q, r), Op::Advance(a), Op::Get(q)];
             if let Err(p) = catch(|| execute(&env, &far_insts[ci], &hist, 0, true, l)) {
-                l.violation(&format!("panic:{}", vcore::short_loc(&p.loc)), &p.msg, || {
+                let key = if far_insts[ci].model_cfg.min_above_default_max() && (p.msg.contains("min > max") || p.msg.contains("min <= max")) {
+                    let kind = match env.stored[q as usize][r as usize] {
+                        Stored::Positive { .. } => "positive",
+                        _ => "negative",
+                    };
+                    format!("insert-panics:min-above-default-max:{kind}")
+                } else {
+                    format!("panic:{}", vcore::short_loc(&p.loc))
+                };
+                l.violation(&key, &format!("insert panicked: {}", p.msg), || {
                     json!({"cfg": far_insts[ci].cfg.to_json(), "history": hist.iter().map(|o| op_json(o, &env)).collect::<Vec<_>>(), "probe_queries": [0, 1, 2]})
                 });
             }
@@ -1172,7 +1226,6 @@ fn main() {
         for c in [
             CfgSpec { default: pos(Some(3), Some(1)), by_type: vec![] },
             CfgSpec { default: neg(Some(3), Some(1)), by_type: vec![] },
-            CfgSpec { default: pos(Some(90_000), None), by_type: vec![] },
         ] {
             for r in ["q2", "neg1-full", "neg-none"] {
                 let cache = ResponseCache::new(8, c.real());
@@ -1186,6 +1239,20 @@ fn main() {
         }
     });
 
+    match seam_thread.join() {
+        Ok((l, Ok(st))) => {
+            ctx.merge(l);
+            ctx.set("seam_family", json!({"worlds": st.worlds, "lookups": st.lookups}));
+        }
+        Ok((l, Err(p))) => {
+            ctx.merge(l);
+            ctx.with_local(|l| l.violation(&format!("seam:panic:{}", vcore::short_loc(&p.loc)), &p.msg, || json!({"seam": true})));
+        }
+        Err(_) => ctx.machinery_failure("seam family thread died"),
+    }
+    if ctx.outcome_count("seam:cache-hit:positive") == 0 || ctx.outcome_count("seam:cache-hit:negative") == 0 || ctx.outcome_count("seam:fetched-upstream") == 0 {
+        ctx.machinery_failure("vacuous run: the seam family never saw a cache hit / an upstream fetch");
+    }
     ctx.set("grids", Value::Object(grid_stats));
     let mism = diff.mismatches.load(Ordering::SeqCst);
     ctx.set("differential_mismatches", json!(mism));
